@@ -150,8 +150,8 @@ pub fn make_batch(dir: &str, prefix: &str, rng: &mut Rng, want: usize, rep: &mut
                             }
                         }
                         Factor::N(_, c) => {
-                            // clipped non-terminal occurrences only where no token expectation is
-                            // derived from the sentence (C22); C23 keeps them unclipped
+                            // a clipped non-terminal occurrence hides its whole subtree (C23 derives the
+                            // expected tokens from the derivation, see wl::random_derivation)
                             c.clip = clip_nts && rng.chance(1, 5);
                             c.member = None;
                         }
@@ -162,7 +162,7 @@ pub fn make_batch(dir: &str, prefix: &str, rng: &mut Rng, want: usize, rep: &mut
         }
         let mut nmem = 0;
         for r in g.rules.iter_mut() {
-            apply_clip(&mut r.alts, &clipped_terms, &mut nmem, rng, !with_inputs);
+            apply_clip(&mut r.alts, &clipped_terms, &mut nmem, rng, true);
         }
         if rng.chance(1, 2) {
             g.states[0].line_comments.push(("//".into(), Quote::Raw));
@@ -282,13 +282,13 @@ pub fn make_batch(dir: &str, prefix: &str, rng: &mut Rng, want: usize, rep: &mut
         // inputs for C23
         let mut inputs = vec![];
         if with_inputs {
-            let bnf = g.to_bnf();
             for s in 0..30 {
                 let budget = *rng.pick(&[1usize, 3, 6, 12, 25]);
-                let Some(w) = wl::random_sentence(&bnf, rng, budget) else { continue };
-                if w.len() > 60 {
+                let Some(wv) = wl::random_derivation(&g, rng, budget) else { continue };
+                if wv.len() > 60 {
                     continue;
                 }
+                let w: Vec<usize> = wv.iter().map(|x| x.0).collect();
                 // fixed lexemes so that expectations are exact
                 let mut text = String::new();
                 let mut expect = vec![];
@@ -297,7 +297,7 @@ pub fn make_batch(dir: &str, prefix: &str, rng: &mut Rng, want: usize, rep: &mut
                         text.push_str(if s % 3 == 0 { " " } else if s % 3 == 1 { "\n" } else { "  \t" });
                     }
                     let lx = if g.terms[*t].text.ends_with("[0-9]*") { format!("{}{}", g.terms[*t].samples[0], wi) } else { g.terms[*t].samples[wi % g.terms[*t].samples.len()].clone() };
-                    if !clipped_terms[*t] {
+                    if wv[wi].1 {
                         expect.push(lx.clone());
                     }
                     text.push_str(&lx);
@@ -534,7 +534,7 @@ pub fn run(ctx: &Ctx, c23: bool) -> i32 {
         }
     }
     let (rule, min) = if c23 {
-        ("case = (accepted grammar compiled by rustc in a batch workspace exactly as parol::build::Builder wrote it - parser, trait/AST/adapter - plus a harness user struct that overrides every trait method and records its name and the Debug rendering of its argument; sentence rendered with fixed lexemes); the binary parses the inputs; the action called last is the start symbol's and must be called once (unless the start symbol is recursive); the Token texts found in its argument's Debug output, in order, must equal the input's significant tokens whose terminal is not clipped (clipping is per terminal, member names on some occurrences; optional parts and repetition order are visible in that sequence); a trailing comment must be delivered once; non-trivial = input with >= 3 unclipped tokens; distinct by (grammar, input)", if quick { 60 } else { 1500 })
+        ("case = (accepted grammar compiled by rustc in a batch workspace exactly as parol::build::Builder wrote it - parser, trait/AST/adapter - plus a harness user struct that overrides every trait method and records its name and the Debug rendering of its argument; sentence = random derivation of the grammar as written that records for every token whether it is visible - hidden when its terminal is clipped or when it was derived below a clipped non-terminal occurrence; letter terminals are /x[0-9]*/ rendered as x<position> so that every occurrence is distinguishable and order inside (nested) repetitions is observable); the binary parses the inputs; the action called last is the start symbol's and must be called once (unless the start symbol is recursive); the Token texts found in its argument's Debug output, in order, must equal the visible tokens of the derivation (member names on some occurrences; optional parts and repetition order are visible in that sequence); a trailing comment must be delivered once; non-trivial = input with >= 3 unclipped tokens; distinct by (grammar, input)", if quick { 60 } else { 1500 })
     } else {
         ("case = accepted grammar (nested EBNF, helper-name clashes, keyword-like non-terminal names, awkward terminal names, mixed terminals, clipped terminals, member names, user types (%t_type, %user_type alias on terminal occurrences, %nt_type, type on a non-terminal occurrence; conversions and ToSpan provided by the harness user module), LL k = 1..4 and LALR(1)) generated by parol::build::Builder with random options (minimize-boxed-types, range, trim, recovery off, depth limit) into its own crate of a batch workspace together with a harness user struct derived from the generated trait; rustc (cargo build --offline --keep-going, warnings ignored) must compile every member; evaluations = member crates compiled; distinct by grammar text", if quick { 12 } else { 150 })
     };
